@@ -2,6 +2,7 @@ CONSTANTS
   Dev = {"BugSerRawControl"}
   Alphabet <- AlphaSer
   MaxLen = 1
+  Prune = FALSE
   DepthProbe = {256}
 INIT Init
 NEXT Next
